@@ -262,9 +262,27 @@ PROPS = {
              COMMON_ASSUME + ["an octetArray value may be rendered as a decimal list, hex (with or without 0x), base64 or raw bytes"],
              "runtime monitor: in-package recorder (go -overlay) + offline sliding-window model over unique message ids; race detector",
              extra_build=_c20_build),
+    "C18": P(False, (16, 16), 16, (1500, 7200), 60, 50, "exploration",
+             "one evaluation = one cell of the matrix, with certificates generated per run by the harness's factory (ECDSA P-256, controlled "
+             "validity and SANs). TLS, real exporter vs real collector: server certificate {trusted, other CA, self-signed, expired, "
+             "not-yet-valid, wrong SAN, no SAN} x ServerName {unset (address used), matching, mismatching}; client certificate {none, "
+             "trusted, other CA, expired} x collector client-CA {unset, set} (judged by delivery at the collector). Versions: real exporter "
+             "vs hand-made TLS server capped at 1.0/1.1/1.2/1.3 and hand-made TLS client capped at 1.0/1.1/1.2/1.3 vs real collector. "
+             "Plaintext: plaintext exporter vs TLS and DTLS collectors (nothing may be delivered), TLS exporter vs plaintext peer (Init "
+             "must fail and no IPFIX header may appear in clear in the peer's capture). DTLS, real exporter vs real collector: chain and "
+             "validity failures and DNS ServerName mismatches judged; wrong/no SAN with an empty ServerName recorded but not judged. "
+             "Negative cells must not establish a session / deliver; positive cells must establish one and deliver. The quick tier runs "
+             "every cell on IPv4; thorough adds IPv6, 3 rounds of fresh certificates and the DTLS-exporter-vs-plaintext-peer cell. Every "
+             "cell is non-trivial; distinct by cell.",
+             COMMON_ASSUME + ["'not delivered' is observed for 600 ms after the send attempt (normal delivery: < 5 ms)",
+                              "pion/dtls skips name verification when ServerName is empty or an IP literal: those DTLS cells are recorded, not judged",
+                              "crypto/tls and pion/dtls are trusted as documented"],
+             "runtime monitor: expectation table over the certificate/name/version/plaintext matrix with real and hand-made peers"),
 }
 
 LEVEL_TEXT = {
+    "C18": "Held on every cell of the stated matrix (exhaustive over the matrix, which is finite). Configuration-quantified property: the "
+           "matrix is the input space.",
     "C20": "Held on every history explored, including histories several times over the cap and a concurrent phase. Unique ids make every "
            "response checkable exactly against the window model.",
     "C19": "Held on every stream explored, for both shipped proto schemas. The wire-level parser shares nothing with the generated "
